@@ -38,7 +38,7 @@ CHECKS["C09"] = ("exploration", "schedule-driven PBT on a harness-owned event lo
   "cooperative tasks only; granularity = suspension points of user awaitables (complete for this library, see C17)", "4/C09")
 CHECKS["C10"] = ("exploration", "model-based history PBT vs functools.lru_cache and an explicit LRU model (for cache_discard)",
   "Generated call/clear/info/discard histories (<= 40 operations) per configuration (maxsize incl. None/negative/0/default, typed, bare decorator, cache(), function/method/classmethod/staticmethod on two instances) are mirrored on functools.lru_cache; results, exception types, invocation log, cache_info and cache_parameters must agree after every operation; a small LRU model, itself cross-checked against functools on every discard-free prefix, is the oracle after cache_discard. Also: one decorator object for several functions, re-entrant calls (a body clearing its cache / calling the cache again), hash-colliding call patterns, arguments whose __class__ lies, callable objects and eager plain defs as wrapped callables, unhashable instances.",
-  "functools._make_key defines pattern identity; sequential awaits only", "4/C10")
+  "functools._make_key defines pattern identity; sequential awaits only; re-entrant same-key calls only for bounded caches (functools' unbounded wrapper overwrites the result, its bounded one - like the library - keeps the first)", "4/C10")
 CHECKS["C16"] = ("exploration", "model-based history PBT vs itertools.groupby (advance groupby / advance any previously returned group)",
   "Generated items (equal-yet-distinguishable keys), key absent/sync/async, four source flavours and histories of up to 15 advance operations on the groupby and on any previously returned group handle are mirrored on itertools.groupby; key, item identity or stop must agree after every operation. Also: keys whose comparison fails (the history goes on), aiter() again on groupby and groups, groups that outlive the groupby object, key failures during the skip scan (via C06).",
   "reflexive key equality; CPython 3.12 itertools.groupby is the oracle", "4/C16")
